@@ -36,19 +36,57 @@ such entries, after which `get_for_list` has no tail — see
 `v2c_C15_table_level_counterexample`).
 -/
 import Proofs.NoUbCratesV2
+import Proofs.NoUbStaleV2
 import Proofs.V2WfRaw
 
 namespace EngineModel.Properties.C15CratesV2
 open EngineModel EngineModel.Db.Chain EngineModel.Db.V2 EngineModel.Api.GuardedV2
 
-/-- No mutating operation (crate, membership, track, table level), with any arguments, has undefined
-behaviour — on any state at all. -/
-theorem v2c_C15_no_ub (d : Db) (op : Op) (u : Ub) : (step d op).2 ≠ .ub u :=
-  step_defined d op u
+/-- **The mutating operations** (crate, membership, track, table level), with any arguments, through
+the guarded step `stepG` — the model's `step` with (i) every `*opt` / `opt->` of crate_impl.cpp,
+database_impl.cpp, playlist_entity_table.cpp as a possible `ub empty_optional` behind the C++ guard
+*as regenerated from the source* (`Gen.C15Guards`), and (ii) the recursive view `PlaylistAllChildren`
+(cycle test of set_parent, remove_crate) as a possible `ub nontermination`.  On a state whose parent
+links form a forest, `stepG` IS the model's step (no guard fails to protect its dereference, the view
+ends within its `|Playlist|` steps) and the outcome is a value or an exception.
+(`Db.V2.step` alone has no `ub` outcome; the statement about it would be empty.) -/
+theorem v2c_C15_no_ub (d : Db) (hf : forestOk d.pl = true) (op : Op) :
+    stepG d op = step d op ∧ ∀ u, (stepG d op).2 ≠ .ub u :=
+  ⟨stepG_eq d hf op, stepG_defined d hf op⟩
 
-/-- … hence along every script from the empty library. -/
-theorem v2c_C15_reachable_no_ub (ops : List Op) : ∀ r ∈ outcomes Db.empty ops, ∀ u, r ≠ .ub u :=
-  fun r hr u => outcomes_defined ops Db.empty r hr u
+/-- **Reachable states**: along EVERY script from the empty library (public API and table level, any
+arguments) the guarded run is the model's run and no call has undefined behaviour. -/
+theorem v2c_C15_reachable_no_ub (ops : List Op) :
+    runG Db.empty ops = run Db.empty ops ∧ ∀ r ∈ outcomesG Db.empty ops, ∀ u, r ≠ .ub u := by
+  refine ⟨runG_eq plInv_empty ops, fun r hr u => ?_⟩
+  rw [outcomesG_eq plInv_empty ops] at hr
+  exact outcomes_defined ops Db.empty r hr u
+
+/-- The forest hypothesis is needed: on a table whose parent links form a cycle (not reachable through
+the API; a foreign or damaged library) `remove_crate` and `set_parent` evaluate the recursive view
+without end — `stepG` says so, the fuel-bounded `step` silently stops. -/
+theorem v2c_C15_cyclic_table_counterexample :
+    let d : Db := ⟨[⟨1, 2, 0, [65]⟩, ⟨2, 1, 0, [66]⟩, ⟨3, 0, 0, [67]⟩], 3, [], 0, [], 0⟩
+    forestOk d.pl = false ∧
+    (stepG d (.removeCrate 3)).2 = .ub .nontermination ∧ (step d (.removeCrate 3)).2 = .ok none ∧
+    (stepG d (.setParent 3 (some 1))).2 = .ub .nontermination := by
+  decide +kernel
+
+/-- Each guard is needed (what a regression of the C++ would do to the model): with the `!row` test of
+`crate::set_name`, the `!after_row` test of `create_root_crate_after` or the `if (existing_id)` of
+`add_back` dropped, the call on a removed crate / with a removed `after` / a new entry dereferences
+an empty optional. -/
+theorem v2c_C15_guard_dropped_counterexample :
+    let d : Db := run Db.empty [.createRoot [65], .createTrack]
+    (stepGW { Guards.source with setNameNoRow := fun _ => false } d (.rename 7 [66])).2 = .ub .empty_optional ∧
+    (stepGW { Guards.source with rootAfterNoRow := fun _ => false } d (.createRootAfter [66] 7)).2 = .ub .empty_optional ∧
+    (stepGW { Guards.source with subAfterNoRow := fun _ => false } d (.createSubAfter 1 [66] 7)).2 = .ub .empty_optional ∧
+    (stepGW { Guards.source with setParentNoRow := fun _ => false } d (.setParent 7 none)).2 = .ub .empty_optional ∧
+    (stepGW { Guards.source with addBackExisting := fun _ => true } d (.addTrack 1 1)).2 = .ub .empty_optional ∧
+    (stepGW { Guards.source with setParentGiven := fun _ => true } d (.setParent 1 none)).2 = .ub .empty_optional ∧
+    (stepGW { Guards.source with crateRemoveTrackFound := fun _ => true } d (.removeTrackFrom 1 1)).2 = .ub .empty_optional ∧
+    (stepGW { Guards.source with dbRemoveTrackFound := fun _ => true } d (.removeTrack 1)).2 = .ub .empty_optional := by
+  decide +kernel
 
 /-- The chain walk of `sort_ids` / `get_for_list`: on a table that represents lists the tail exists and
 the loop ends within `rows.length` lookups (the guarded walk = the model's walk = a value). -/
@@ -88,6 +126,15 @@ theorem v2c_C15_reachable_queries_no_ub (ops : List Op) (hapi : ops.all apiOp = 
   obtain ⟨_, _, hI, _⟩ := inv_run inv_empty ops (all_memOp_of_apiOp hapi)
   exact queryG_defined _ hI.ch.rk hI.ch.re (forestOk_of_plInv hI.pl) q u
 
+/-- **The whole public alphabet** of `database` / `crate` over this model: mutations and queries
+interleaved in any order, with any arguments, from the empty library — every outcome is a value or an
+exception.  `memCall`: the mutations are public-API operations or additions of entries of OTHER databases
+(what other software sharing the library does); `crate::add_tracks` is a list of `addTrack`; `uuid`,
+`version_name`, `directory`, `verify`, `crate::db` have no model content (outcome `ok`; tie only). -/
+theorem v2c_C15_all_calls_no_ub (cs : List Call) (hm : cs.all memCall = true) :
+    ∀ r ∈ callOutcomes Db.empty cs, ∀ u, r ≠ .ub u :=
+  fun r hr u => callOutcomes_defined cs inv_empty hm r hr u
+
 /-- The restriction to the public API is needed: at table level (`playlist_entity_table`, reachable
 only by code that bypasses `crate`) entries with a non-positive track id are not re-linked by the
 schema's delete trigger, and listing the playlist then dereferences a missing tail. -/
@@ -96,44 +143,71 @@ theorem v2c_C15_table_level_counterexample :
       .ub .oob_read := by
   decide +kernel
 
-/-- **Stale crate handle**: after `remove_crate(c)` — from any state — `c.is_valid()` is false,
-`name()` / `parent()` throw `crate_deleted`, every mutation through the handle throws, and removing it
-again throws. -/
-theorem v2c_C15_stale_crate (d : Db) (c : Int) :
-    let d' := plRemove d c
-    qValid d' c = false ∧ qName d' c = .throw (exn "crate_deleted") ∧ qParent d' c = .throw (exn "crate_deleted") ∧
-    (∀ n, (step d' (.rename c n)).2 = .throw (exn "crate_deleted")) ∧
-    (∀ n, (step d' (.createSub c n)).2 = .throw (exn "crate_deleted")) ∧
-    (∀ n a, (step d' (.createSubAfter c n a)).2 = .throw (exn "crate_deleted")) ∧
-    (∀ t, (step d' (.addTrack c t)).2 = .throw (exn "crate_deleted")) ∧
-    (∀ p, ∃ e, (step d' (.setParent c p)).2 = .throw e) ∧
-    (step d' (.removeCrate c)).2 = .throw .invalid_argument := by
-  intro d'
-  have hgone : c ∉ ids d'.pl := removed_gone d c
-  have hget : Db.Chain.get d'.pl c = none := get_none_of_not_mem hgone
-  have hex : plExists d' c = false := by
-    cases h : plExists d' c with
+/-- What every call through the handle of a crate that is not (or no longer) in the library does. -/
+theorem stale_calls (d : Db) (c : Int) (hgone : c ∉ ids d.pl) :
+    qValid d c = false ∧ qNameG d c = .throw (exn "crate_deleted") ∧ qParentG d c = .throw (exn "crate_deleted") ∧
+    (∀ n, (stepG d (.rename c n)).2 = .throw (exn "crate_deleted")) ∧
+    (∀ n, (stepG d (.createSub c n)).2 = .throw (exn "crate_deleted")) ∧
+    (∀ n a, (stepG d (.createSubAfter c n a)).2 = .throw (exn "crate_deleted")) ∧
+    (∀ t, (stepG d (.addTrack c t)).2 = .throw (exn "crate_deleted")) ∧
+    (∀ p, ∃ e, (stepG d (.setParent c p)).2 = .throw e) ∧
+    (stepG d (.removeCrate c)).2 = .throw .invalid_argument := by
+  have hget : Db.Chain.get d.pl c = none := get_none_of_not_mem hgone
+  have hex : plExists d c = false := by
+    cases h : plExists d c with
     | false => rfl
-    | true => exact absurd ((plExists_iff d' c).mp h) hgone
+    | true => exact absurd ((plExists_iff d c).mp h) hgone
   refine ⟨hex, ?_, ?_, ?_, ?_, ?_, ?_, ?_, ?_⟩
-  · simp only [qName, hget]
-  · simp only [qParent, hget]
-  · intro n; simp only [step, hget]
-  · intro n; simp only [step, hex, Bool.not_false, if_true]
-  · intro n a; simp only [step, hex, Bool.not_false, if_true]
-  · intro t; simp only [step, hex, Bool.not_false, if_true]
+  · rw [qNameG_eq]; simp only [qName, hget]
+  · rw [qParentG_eq]; simp only [qParent, hget]
+  · intro n; simp [stepG, stepGW, Guards.source, Gen.C15Guards.v2_crate_set_name_norow, hget]
+  · intro n; simp only [stepG, stepGW, step, hex, Bool.not_false, if_true]
+  · intro n a; simp only [stepG, stepGW, hex, Bool.not_false, if_true]
+  · intro t; simp only [stepG, stepGW, hex, Bool.not_false, if_true]
   · intro p
-    simp only [step]
-    split
-    · exact ⟨_, rfl⟩
-    · simp only [hget]; exact ⟨_, rfl⟩
-  · simp only [step, hex, Bool.not_false, if_true]
+    cases p with
+    | none =>
+      refine ⟨exn "crate_deleted", ?_⟩
+      simp [stepG, stepGW, Guards.source, Gen.C15Guards.v2_crate_set_parent_self,
+        Gen.C15Guards.v2_crate_set_parent_norow, hget]
+    | some q =>
+      by_cases hq : q = c
+      · refine ⟨exn "crate_invalid_parent", ?_⟩
+        subst hq
+        simp [stepG, stepGW, Guards.source, Gen.C15Guards.v2_crate_set_parent_self, deref, Res.bind]
+      · refine ⟨exn "crate_deleted", ?_⟩
+        have h1 : (q == c) = false := by simpa using hq
+        simp [stepG, stepGW, Guards.source, Gen.C15Guards.v2_crate_set_parent_self,
+          Gen.C15Guards.v2_crate_set_parent_norow, deref, Res.bind, h1, hget]
+  · simp only [stepG, stepGW, hex, Bool.not_false, if_true]
+
+/-- **Stale crate handle, along every later history**: once `remove_crate(c)` has succeeded on a state
+reachable through the API (`PlInv`: the crates-2.x invariant, kept by every operation), then after ANY
+further operations `c.is_valid()` is false, `name()` / `parent()` throw `crate_deleted`, every mutation
+through the handle throws, and removing it again throws — `Playlist.id` is AUTOINCREMENT, so the id is
+never issued again.  (`id()`, copying, assigning and destroying a handle touch no library state: they
+have no model content — the handle is the `Int`; AddressSanitizer watches them in the tie.) -/
+theorem v2c_C15_stale_crate (d : Db) (hI : PlInv d) (c : Int) (hc : plExists d c = true) (ops : List Op) :
+    let d' := run (step d (.removeCrate c)).1 ops
+    qValid d' c = false ∧ qNameG d' c = .throw (exn "crate_deleted") ∧ qParentG d' c = .throw (exn "crate_deleted") ∧
+    (∀ n, (stepG d' (.rename c n)).2 = .throw (exn "crate_deleted")) ∧
+    (∀ n, (stepG d' (.createSub c n)).2 = .throw (exn "crate_deleted")) ∧
+    (∀ n a, (stepG d' (.createSubAfter c n a)).2 = .throw (exn "crate_deleted")) ∧
+    (∀ t, (stepG d' (.addTrack c t)).2 = .throw (exn "crate_deleted")) ∧
+    (∀ p, ∃ e, (stepG d' (.setParent c p)).2 = .throw e) ∧
+    (stepG d' (.removeCrate c)).2 = .throw .invalid_argument :=
+  stale_calls _ c (gone_run (gone_after_remove hI hc) ops).absent
+
+/-- … in particular after any script from the empty library. -/
+theorem v2c_C15_stale_crate_reachable (ops1 : List Op) (c : Int) (hc : plExists (run Db.empty ops1) c = true)
+    (ops2 : List Op) : qValid (run (step (run Db.empty ops1) (.removeCrate c)).1 ops2) c = false :=
+  (v2c_C15_stale_crate _ (plInv_run plInv_empty ops1) c hc ops2).1
 
 /-- Ids of crates that do not exist (never created, or removed) as the *other* argument: exceptions. -/
 theorem v2c_C15_nonexistent_args (d : Db) (c q : Int) (hq : plExists d q = false) (hqc : q ≠ c) :
     (∃ e, (step d (.setParent c (some q))).2 = .throw e) ∧
     (∀ n, ∃ e, (step d (.createRootAfter n q)).2 = .throw e) ∧
-    (∀ t, (step d (.addTrack q t)).2 = .throw (exn "crate_deleted")) := by
+    (∀ t, (stepG d (.addTrack q t)).2 = .throw (exn "crate_deleted")) := by
   have hget : Db.Chain.get d.pl q = none := by
     apply get_none_of_not_mem
     intro hm
@@ -150,7 +224,7 @@ theorem v2c_C15_nonexistent_args (d : Db) (c q : Int) (hq : plExists d q = false
     split
     · exact ⟨_, rfl⟩
     · simp only [hget]; exact ⟨_, rfl⟩
-  · intro t; simp only [step, hq, Bool.not_false, if_true]
+  · intro t; simp only [stepG, stepGW, hq, Bool.not_false, if_true]
 
 /-! ### non-vacuity: states that satisfy the hypotheses, and states that show they are needed -/
 
@@ -168,6 +242,10 @@ example : forestOk exDb.pl = true := by decide +kernel
 /-- its Playlist table represents the lists root ↦ [1, 4], 1 ↦ [2], 2 ↦ [3] -/
 example : exDb.pl = [⟨1, 0, 4, nm 'A'⟩, ⟨2, 1, 0, nm 'B'⟩, ⟨3, 2, 0, nm 'C'⟩, ⟨4, 0, 0, nm 'D'⟩] := by decide +kernel
 example : qRoots exDb = .ok [1, 4] ∧ qTracks exDb 1 = .ok [1, 2] := by decide +kernel
+example : PlInv exDb := plInv_run plInv_empty exOps
+example : plExists exDb 2 = true := by decide +kernel
+example : (stepG exDb (.setParent 1 (some 3))) = (step exDb (.setParent 1 (some 3))) := by decide +kernel
+example : (stepG exDb (.removeCrate 1)).1.pl = [⟨4, 0, 0, nm 'D'⟩] := by decide +kernel
 example : queryG exDb .roots = .ok () ∧ queryG exDb (.descendants 1) = .ok () ∧ queryG exDb (.tracks 99) = .ok () := by
   decide +kernel
 /-- crates from elsewhere in the tree, nonexistent ids, odd names: exceptions -/
